@@ -54,35 +54,137 @@ def showOut : Out → String
 
 def totalBytes (t : Tree) : Nat := t.items.foldl (fun a e => a + e.2.length) 0
 
+/-- call the model's `Read` with each buffer size until EOF; report every returned count and where the
+store (its cursor) is left -/
+def readSteps (t : Tree) (r : Reader) : List Nat → List Nat → List (List Nat) → Tree × List Nat × List Nat × Bool
+  | [], counts, acc => (t, counts.reverse, acc.reverse.flatten, false)
+  | n :: ns, counts, acc =>
+    match r.read true t n with
+    | (t', _, .eof) => (t', counts.reverse, acc.reverse.flatten, true)
+    | (t', r', .data out) => readSteps t' r' ns (out.length :: counts) (out :: acc)
+
 def getOp (t : Tree) (k : Nat) : Tree × String :=
   match opOpen t k with
   | (t0, none) => (t0, "notfound")
   | (t0, some r) =>
     let fuel := totalBytes t0 / 65536 + 2 * t0.items.length + 2
-    let (bytes, eof) := readAll true t0 r (List.replicate fuel 65536)
+    let (t1, _, bytes, eof) := readSteps t0 r (List.replicate fuel 65536) [] []
     let vals := splitLines bytes
-    (t0, s!"n={vals.length} " ++ " ".intercalate (vals.map dig) ++ (if eof then " eof" else " noeof"))
-
-/-- call the model's `Read` with each buffer size until EOF; report every returned count -/
-def readSteps (t : Tree) (r : Reader) : List Nat → List Nat → List (List Nat) → List Nat × List Nat × Bool
-  | [], counts, acc => (counts.reverse, acc.reverse.flatten, false)
-  | n :: ns, counts, acc =>
-    match r.read true t n with
-    | (_, _, .eof) => (counts.reverse, acc.reverse.flatten, true)
-    | (t', r', .data out) => readSteps t' r' ns (out.length :: counts) (out :: acc)
+    (t1, s!"n={vals.length} " ++ " ".intercalate (vals.map dig) ++ (if eof then " eof" else " noeof"))
 
 def readOp (t : Tree) (k : Nat) (bufs : List Nat) : Tree × String :=
   match opOpen t k with
   | (t0, none) => (t0, "notfound")
   | (t0, some r) =>
-    let (counts, bytes, eof) := readSteps t0 r bufs [] []
-    (t0, ",".intercalate (counts.map toString) ++ (if eof then " eof " else " more ") ++ dig bytes)
+    let (t1, counts, bytes, eof) := readSteps t0 r bufs [] []
+    (t1, ",".intercalate (counts.map toString) ++ (if eof then " eof " else " more ") ++ dig bytes)
 
 def dumpOp (t : Tree) : String :=
   if t.items.isEmpty then "empty"
   else " ".intercalate (t.items.map fun e => s!"{e.1.key}:{e.1.idx}:{dig e.2}")
 
 def natList (s : String) : Option (List Nat) := (s.splitOn ",").mapM String.toNat?
+
+/-! ### several open readers / writers on one store (`Sess`) -/
+
+def showKey (k : SKey) : String := s!"{k.key}:{k.idx}"
+
+/-- `Read` calls of reader `j` with each buffer size until EOF; report every returned count -/
+def rdSteps (s : Sess) (j : Nat) : List Nat → List Nat → List (List Nat) → Sess × List Nat × List Nat × Bool
+  | [], counts, acc => (s, counts.reverse, acc.reverse.flatten, false)
+  | n :: ns, counts, acc =>
+    match s.rd j n with
+    | (s', some (.data out)) => rdSteps s' j ns (out.length :: counts) (out :: acc)
+    | (s', _) => (s', counts.reverse, acc.reverse.flatten, true)
+
+def rdOp (s : Sess) (j : Nat) (bufs : List Nat) : Sess × String :=
+  match s.readers[j]? with
+  | none => (s, "bad-slot")
+  | some _ =>
+    let (s', counts, bytes, eof) := rdSteps s j bufs [] []
+    (s', ",".intercalate (counts.map toString) ++ (if eof then " eof " else " more ") ++ dig bytes)
+
+def decOp (s : Sess) (j : Nat) : Sess × Option (List Nat) := Sess.decode 64 s j 512 []
+
+def kindOf : String → Option EncKind
+  | "add" => some .add | "upd" => some .update | "ups" => some .upsert | "addne" => some .addIfNotExist
+  | _ => none
+
+def showOB : Option Bool → String
+  | some true => "ok" | some false => "err" | none => "bad-slot"
+
+/-- `Find(k,i)` on the underlying B-tree, then (on a hit) up to `n` times `Next`, naming where the cursor goes -/
+def nexts : Nat → Tree → List String → Tree × List String
+  | 0, t, acc => (t, acc.reverse)
+  | n + 1, t, acc =>
+    match t.next with
+    | (t', true) => nexts n t' (showKey t'.currentKey :: acc)
+    | (t', false) => (t', ("end" :: acc).reverse)
+
+def curFind (t : Tree) (k i n : Nat) : Tree × String :=
+  match t.find ⟨k, i⟩ with
+  | (t', true) => let (t2, ks) := nexts n t' []; (t2, " ".intercalate ("1" :: ks))
+  | (t', false) => (t', "0")
+
+def curFirst (t : Tree) (n : Nat) : Tree × String :=
+  match t.first with
+  | (t', true) => let (t2, ks) := nexts n t' []; (t2, " ".intercalate (showKey t'.currentKey :: ks))
+  | (t', false) => (t', "empty")
+
+def onTree (s : Sess) (r : Tree × String) : Sess × String := ({ s with tree := r.1 }, r.2)
+
+def sessStep (s : Sess) (ws : List String) : Option (Sess × String) :=
+  match ws with
+  | ["open", _, k] => do
+    let k ← k.toNat?
+    let (s', ok) := s.openReader k
+    pure (s', if ok then "ok" else "notfound")
+  | ["dec", j] => do
+    let j ← j.toNat?
+    if (s.readers[j]?).isNone then pure (s, "bad-slot") else
+    match decOp s j with
+    | (s', some bytes) => pure (s', "v " ++ dig bytes)
+    | (s', none) => pure (s', "eof")
+  | ["rd", j, bufs] => do
+    let j ← j.toNat?
+    let bufs ← natList bufs
+    pure (rdOp s j bufs)
+  | ["enc", _, kind, k] => do
+    let kind ← kindOf kind
+    let k ← k.toNat?
+    let (s', ok) := s.openWriter kind k
+    pure (s', if ok then "ok" else "notfound")
+  | ["put", j, d] => do
+    let j ← j.toNat?
+    let c ← chunkOf d
+    let (s', r) := s.put j c
+    pure (s', showOB r)
+  | ["cls", j] => do
+    let j ← j.toNat?
+    let (s', r) := s.closeWriter j
+    pure (s', showOB r)
+  | ["cp", jd, je] => do
+    let jd ← jd.toNat?
+    let je ← je.toNat?
+    if (s.readers[jd]?).isNone then pure (s, "bad-slot") else
+    match decOp s jd with
+    | (s', some bytes) =>
+      let (s2, r) := s'.put je bytes
+      pure (s2, "v " ++ dig bytes ++ " " ++ showOB r)
+    | (s', none) => pure (s', "eof")
+  | ["cur", "find", k, i, n] => do
+    let k ← k.toNat?
+    let i ← i.toNat?
+    let n ← n.toNat?
+    pure (onTree s (curFind s.tree k i n))
+  | ["cur", "first", n] => do
+    let n ← n.toNat?
+    pure (onTree s (curFirst s.tree n))
+  | ["txn"] =>
+    -- commit, new transaction, store reopened: what is stored stays, nothing is selected, the old
+    -- transaction's readers and writers are gone
+    pure ({ tree := { s.tree with cur := none }, readers := [], writers := [] }, "ok")
+  | _ => none
 
 def step (t : Tree) (ws : List String) : Tree × String :=
   match ws with
@@ -117,7 +219,15 @@ def step (t : Tree) (ws : List String) : Tree × String :=
   | ["dump"] => (t, dumpOp t)
   | _ => (t, "bad-op")
 
-def run : IO Unit := runLoop (fun _ => Tree.empty) step
+def stepS (s : Sess) (ws : List String) : Sess × String :=
+  match sessStep s ws with
+  | some r => r
+  | none =>
+    match ws with
+    | "open" :: _ | "dec" :: _ | "rd" :: _ | "enc" :: _ | "put" :: _ | "cls" :: _ | "cp" :: _ | "cur" :: _ => (s, "bad-op")
+    | _ => onTree s (step s.tree ws)
+
+def run : IO Unit := runLoop (fun _ => Sess.empty) stepS
 end Sop.Driver.C31
 
 def main : IO Unit := Sop.Driver.C31.run
